@@ -34,7 +34,10 @@ RULE_ADDED = (
               'nbase whose byte count overflows 64 bits. '
               ' '
               'Round 12: 15% of the cases preceded by state / parameter queries (update in prog'
-              'ress, best block found ...) and resets. ')
+              'ress, best block found ...) and resets. '
+              ' '
+              'Round 13: brother lists holding two headers whose hashes share their first four '
+              'bytes (committed fixture found by a birthday search). ')
 RULE = RULE + " " + RULE_ADDED.strip()
 ASSUMPTIONS = [
     "simulated device + fake transports trusted; the device follows framing only",
@@ -95,7 +98,14 @@ def run_case(acc, cseed, spec, stack_holder):
             nbro = rng.choice([0, 0, 1, 2, 3, 10, rng.randint(0, 10)])
             if nb > 10:
                 nbro = rng.choice([0, 0, 0, 1, 2])
-            brothers.append([mk([19, 20]) for _ in range(nbro)])
+            bl_ = [mk([19, 20]) for _ in range(nbro)]
+            if rng.random() < 0.08:
+                # two brothers whose hashes share their first four bytes (a pair in 2^32 -
+                # somebody mining uncles can afford it): the order is that of the whole hash
+                bl_ = bl_[:8] + gb.brothers_sharing_hash_prefix(rng)
+                rng.shuffle(bl_)
+                acc.count("brother_lists_with_two_hashes_sharing_their_first_4_bytes")
+            brothers.append(bl_)
         else:
             blocks.append(mk([17, 18, 19, 20]))
     for h in blocks + [x for bl in brothers for x in bl]:
